@@ -104,27 +104,32 @@ theorem window_in_bounds (c ic s n : Int) (hs : 0 ≤ s) (hn : 0 ≤ n) :
     windowLo, windowHi, clamp]
   refine ⟨?_, ?_, ?_, ?_, ?_, ?_, ?_, ?_⟩ <;> split_ifs <;> omega
 
-/-- `samples_per_seg = int(rseg/dx + 1)` is `⌊rseg/dx⌋ + 1` for a non-negative ratio -/
-theorem samples_per_seg (b : Rat) (hb : 0 ≤ b) : Generated.C18.samplesPerSeg b = ((⌊b⌋ + 1 : Int) : Rat) := by
-  unfold Generated.C18.samplesPerSeg pyTruncRat
-  have : ¬ (b + 1 < 0) := by linarith
-  rw [if_neg this, Rat.floor_eq_intFloor]
-  simp
+/-- `samples_per_seg = int(rseg/dx + 2)` is `⌊rseg/dx⌋ + 2` for a non-negative ratio (the offset the model and the driver use),
+and the centre index is `ceil(n/2)` -/
+theorem samples_per_seg (b : Rat) (hb : 0 ≤ b) (n : Int) :
+    Generated.C18.samplesPerSeg b = ((⌊b⌋ + spsOffset : Int) : Rat) ∧ Generated.C18.centreIndexX n = centreIndex n ∧
+    Generated.C18.centreIndexY n = centreIndex n := by
+  refine ⟨?_, rfl, rfl⟩
+  unfold Generated.C18.samplesPerSeg pyTruncRat spsOffset
+  have h2 : ¬ (b + 2 < 0) := by linarith
+  first
+    | (rw [if_neg h2, Rat.floor_eq_intFloor]; simp)
+    | (simp only [spsOffset]; push_cast; rw [if_neg h2, Rat.floor_eq_intFloor]; simp)
 
-/-- the (unclamped) window of a segment covers every sample whose coordinate lies within `± rseg` of the segment centre,
-EXCEPT possibly ONE line of samples: with `a = centre/dx`, `ia = int(a)`, `b = rseg/dx`, `s = ⌊b⌋ + 1`, origin sample
-`n // 2` and the code's centre index `c = ceil(n/2)`, every such sample `i` satisfies `lo − δ ≤ i < hi + 1 − δ`,
-`δ = c − n//2 ∈ {0, 1}`: for odd `n` the line just below the window, for even `n` the line just above it, may be cut off
-(the one-sample truncation of the design; it can only remove samples at the very tip/edge of the hexagon) -/
+/-- THE WINDOW CONTAINS THE WHOLE HEXAGON: with `a = centre/dx`, `ia = int(a)` (any integer within one sample of `a`),
+`b = rseg/dx`, `s = ⌊b⌋ + 2` (generated `samples_per_seg`), origin sample `n // 2` and the code's centre index `ceil(n/2)`,
+every sample `i` whose coordinate lies within `± rseg` of the segment centre satisfies `lo ≤ i < hi` for the unclamped window
+`[c + ia − s, c + ia + s)` — both parities of `n`, either sign of the centre.  (With the former `+ 1` one line of samples
+could be cut off: below the window for odd `n`, above it for even `n`.) -/
 theorem window_covers {K : Type} [Field K] [LinearOrder K] [IsStrictOrderedRing K]
     (n ia fb i : Int) (a b : K) (hia : |a - (ia : K)| < 1) (hfb : (fb : K) ≤ b ∧ b < (fb : K) + 1)
     (hin : a - b ≤ ((i - n / 2 : Int) : K) ∧ ((i - n / 2 : Int) : K) ≤ a + b) :
     let c := Generated.C18.centreIndexX n
-    let s := fb + 1
-    (c - n / 2 = 0 ∨ c - n / 2 = 1) ∧
-    (c + ia - s) - (c - n / 2) ≤ i ∧ i < (c + ia - s + 2 * s) + 1 - (c - n / 2) := by
+    let s := fb + spsOffset
+    c + ia - s ≤ i ∧ i < c + ia - s + 2 * s := by
   intro c s
   have hc : c = -((-n) / 2) := rfl
+  have hs : s = fb + 2 := rfl
   obtain ⟨h1, h2⟩ := abs_lt.mp hia
   obtain ⟨g1, g2⟩ := hin
   have lo : ((ia - fb - 2 : Int) : K) < ((i - n / 2 : Int) : K) := by
@@ -133,7 +138,7 @@ theorem window_covers {K : Type} [Field K] [LinearOrder K] [IsStrictOrderedRing 
     push_cast at g2 ⊢; linarith [hfb.2]
   have lo' := Int.cast_lt.mp lo
   have hi' := Int.cast_lt.mp hi
-  refine ⟨by omega, by omega, by omega⟩
+  refine ⟨by omega, by omega⟩
 
 /-! ## hexagons do not overlap -/
 
